@@ -127,7 +127,7 @@ Definition int_num (cf : cfg) (n : number) : bool :=
 Fixpoint ityp (cf : cfg) (e : expr) : bool :=
   match e with
   | ENum n => int_num cf n
-  | EAdd c d => forallb (fun p => ityp cf (fst p)) d
+  | EAdd c d => match d with [] => int_num cf c | _ => existsb (fun p => ityp cf (fst p)) d end
   | EMul c d => forallb (fun p => ityp cf (fst p)) d
   | EPow a b => negb (is_E a) && is_num_int b (-1) && ityp cf a
   | EF1 c a => (c =? TC_Not) || ((c =? TC_UnevaluatedExpr) && ityp cf a)
